@@ -28,9 +28,10 @@ type c03Case struct {
 type c03Weights struct {
 	ConvertCoin, ConvertERC20, Transfer, Burn, BurnCoins, BankSend, Toggle, SendEnabled, Params int
 	Repair float64 // chance per step that a switched-off switch is switched on again
+	Receipt int    // one Ethereum transaction with several logs (needs a world with c03AddContracts)
 }
 
-var c03DefaultWeights = c03Weights{ConvertCoin: 20, ConvertERC20: 20, Transfer: 26, Burn: 7, BurnCoins: 5, BankSend: 5, Toggle: 5, SendEnabled: 4, Params: 7, Repair: 0.3}
+var c03DefaultWeights = c03Weights{ConvertCoin: 18, ConvertERC20: 18, Transfer: 20, Burn: 6, BurnCoins: 5, BankSend: 5, Toggle: 5, SendEnabled: 4, Params: 7, Repair: 0.3, Receipt: 30}
 
 // c03Prelude puts value on both sides of every pair so that every route has something to
 // work on: each holder converts part of its coins (native pairs) / tokens (external pairs).
@@ -104,7 +105,7 @@ func (w *c03World) c03GenOp(e *Env, wt c03Weights, parties []int, cur c03Obs) c0
 	if !cur.Pairs[pair].SendOK && e.Chance(wt.Repair) {
 		return c03Op{Kind: "send_enabled", Pair: pair, B1: true}
 	}
-	total := wt.ConvertCoin + wt.ConvertERC20 + wt.Transfer + wt.Burn + wt.BurnCoins + wt.BankSend + wt.Toggle + wt.SendEnabled + wt.Params
+	total := wt.ConvertCoin + wt.ConvertERC20 + wt.Transfer + wt.Burn + wt.BurnCoins + wt.BankSend + wt.Toggle + wt.SendEnabled + wt.Params + wt.Receipt
 	r := e.Pick(total)
 	from := e.Pick(w.NHold)
 	other := (from + 1 + e.Pick(w.NHold-1)) % w.NHold
@@ -163,6 +164,10 @@ func (w *c03World) c03GenOp(e *Env, wt c03Weights, parties []int, cur c03Obs) c0
 				to = other
 			}
 		}
+		if w.VaultIdx >= 0 && e.Chance(0.15) {
+			e.Stats.Count("transfer-to:contract-account")
+			to = w.VaultIdx
+		}
 		return c03Op{Kind: "transfer", Pair: pair, From: from, To: to, Amt: c03Amount(e, tb).String()}
 	case r < wt.ConvertCoin+wt.ConvertERC20+wt.Transfer+wt.Burn:
 		return c03Op{Kind: "burn", Pair: pair, From: from, Amt: c03Amount(e, tb).String()}
@@ -193,11 +198,13 @@ func (w *c03World) c03GenOp(e *Env, wt c03Weights, parties []int, cur c03Obs) c0
 		return c03Op{Kind: "toggle", Pair: pair}
 	case r < wt.ConvertCoin+wt.ConvertERC20+wt.Transfer+wt.Burn+wt.BurnCoins+wt.BankSend+wt.Toggle+wt.SendEnabled:
 		return c03Op{Kind: "send_enabled", Pair: pair, B1: e.Chance(0.5)}
-	default:
+	case r < wt.ConvertCoin+wt.ConvertERC20+wt.Transfer+wt.Burn+wt.BurnCoins+wt.BankSend+wt.Toggle+wt.SendEnabled+wt.Params:
 		if e.Chance(0.45) {
 			return c03Op{Kind: "params", B1: true, B2: true}
 		}
 		return c03Op{Kind: "params", B1: e.Chance(0.5), B2: e.Chance(0.5)}
+	default:
+		return w.c03GenReceipt(e, parties, cur)
 	}
 }
 
@@ -217,9 +224,11 @@ func (w *c03World) c03Execute(e *Env, kase *c03Case, n int, gen func(cur c03Obs)
 func (w *c03World) c03ExecuteOn(e *Env, prepared sdk.Context, kase *c03Case, n int, gen func(cur c03Obs) c03Op, pre *c03Obs) (term string, sig string) {
 	ctx, _ := prepared.CacheContext()
 	selfburned := make([]*big.Int, len(w.Pairs))
+	stuck := make([]*big.Int, len(w.Pairs))
 	zero := make([]*big.Int, len(w.Pairs))
 	for i := range selfburned {
 		selfburned[i] = big.NewInt(0)
+		stuck[i] = big.NewInt(0)
 		zero[i] = big.NewInt(0)
 	}
 	var init c03Obs
@@ -230,6 +239,7 @@ func (w *c03World) c03ExecuteOn(e *Env, prepared sdk.Context, kase *c03Case, n i
 	}
 	cur := init
 	prevSB := append([]*big.Int{}, zero...)
+	prevStuck := append([]*big.Int{}, zero...)
 	replay := gen == nil
 	if replay {
 		n = len(kase.Ops)
@@ -253,6 +263,12 @@ func (w *c03World) c03ExecuteOn(e *Env, prepared sdk.Context, kase *c03Case, n i
 			}
 		}
 		e.Stats.Count("op:" + o.Kind + ":" + cls)
+		if o.Kind == "receipt" {
+			// ghost: coins that stay in escrow because the sender named by a log is a blocked address
+			for p, d := range w.c03ReceiptStats(e, o, ok, cur) {
+				stuck[p] = new(big.Int).Add(stuck[p], d)
+			}
+		}
 		if o.Kind != "params" {
 			k := "module-owned"
 			if w.Pairs[o.Pair].External {
@@ -273,16 +289,35 @@ func (w *c03World) c03ExecuteOn(e *Env, prepared sdk.Context, kase *c03Case, n i
 				e.Stats.Count("hook:plain-transfer-to-module-address")
 			}
 		}
-		steps = append(steps, Tup(w.opTerm(o), B(ok), w.dobsTerm(cur, prevSB, post, selfburned)))
+		if ok && o.Kind == "receipt" {
+			converted := false
+			for p := range post.Pairs {
+				pp, qq := cur.Pairs[p], post.Pairs[p]
+				if pp.Supply.Cmp(qq.Supply) != 0 || !c03SameInts(pp.CBal, qq.CBal) {
+					converted = true
+				}
+			}
+			if converted {
+				e.Stats.Count("hook:converted-in-multi-log-receipt")
+				sig += "C"
+			} else {
+				e.Stats.Count("hook:multi-log-receipt-without-conversion")
+			}
+		}
+		steps = append(steps, Tup(w.opTerm(o), B(ok), w.dobsTerm(cur, prevSB, prevStuck, post, selfburned, stuck)))
 		cur = post
 		prevSB = append([]*big.Int{}, selfburned...)
+		prevStuck = append([]*big.Int{}, stuck...)
 		sig += fmt.Sprintf("%s/%d/%d/%d/%s/%v;", o.Kind, o.Pair, o.From, o.To, o.Amt, ok)
+		for _, l := range o.Legs {
+			sig += fmt.Sprintf("%s.%s/%d/%d/%d/%s;", o.Via, l.Kind, l.Pair, l.From, l.To, l.Amt)
+		}
 	}
 	kase.Names = nil
 	for _, p := range kase.Parties {
 		kase.Names = append(kase.Names, w.Parties[p].Name)
 	}
-	term = App("mkErc20Case", w.partiesTerm(kase.Parties), w.blockedTerm(), w.obsTerm(init, zero), L(steps))
+	term = App("mkErc20Case", w.partiesTerm(kase.Parties), w.blockedTerm(), w.obsTerm(init, zero, zero), L(steps))
 	return term, sig
 }
 
@@ -403,7 +438,11 @@ func (w *c03World) c03PickParties(e *Env, k int) []int {
 			ps = append(ps, i)
 		}
 	}
-	return append(ps, w.ZeroIdx)
+	ps = append(ps, w.ZeroIdx)
+	if w.VaultIdx >= 0 {
+		ps = append(ps, w.VaultIdx)
+	}
+	return ps
 }
 
 func c03Worlds() []*c03World {
@@ -414,13 +453,14 @@ func c03Worlds() []*c03World {
 	for i, u := range units {
 		w := c03NewWorld(i, 3, 2, 2, u)
 		w.c03Prelude(u)
+		w.c03AddContracts(u)
 		ws = append(ws, w)
 	}
 	return ws
 }
 
 func c03Run(e *Env) {
-	e.Stats.Rule = "case = random history of 20-40 operations (plus one scripted boundary history per pair and world: every bound of the model just met / just missed, every gate closed once, the hook with each switch off, blocked and zero-address receivers) on the real application with 2 module-owned pairs (RegisterCoin) and 2 external pairs (shipped ERC20MinterBurnerDecimals deployed by a holder, RegisterERC20), 3 holders, the erc20 module account and 2 further module accounts; operations: ConvertCoin / ConvertERC20 through the erc20 message server, ERC-20 transfer / burn / burnCoins as signed Ethereum transactions through EvmKeeper.EthereumTx (post-tx hooks run), bank MsgSend, ToggleTokenConversion, bank send-enabled flips, MsgUpdateParams; amounts 1..balance, exactly balance, balance+-1, 0, free magnitudes; receivers self / third party / module accounts; projection after every operation: bank supply, totalSupply(), bank balance and balanceOf() of every party for every pair, flags, parameters, result class; non-trivial = at least one successful conversion or hook conversion; distinct by hash of (operations, result classes)"
+	e.Stats.Rule = "case = random history of 20-40 operations (plus one scripted boundary history per pair and world: every bound of the model just met / just missed, every gate closed once, the hook with each switch off, blocked and zero-address receivers, and scripted multi-log receipts: a balance spent in two logs exactly / one too many, zero amount first, several holders, the contract account sending twice and four times in one real transaction, approval naming the module, logs of an unregistered contract, a blocked sender in the middle, two registered contracts in one receipt, several logs with each switch off) on the real application with 2 module-owned pairs (RegisterCoin) and 2 external pairs (shipped ERC20MinterBurnerDecimals deployed by a holder, RegisterERC20), 3 holders, a contract account (hand-assembled multicall vault deployed by a real transaction, holding tokens of every pair and an allowance of every holder), an unregistered copy of the ERC-20, the erc20 module account and 2 further module accounts; operations: ConvertCoin / ConvertERC20 through the erc20 message server, ERC-20 transfer / burn / burnCoins as signed Ethereum transactions through EvmKeeper.EthereumTx (post-tx hooks run), Ethereum transactions with 1-5 calls and as many or more logs in ONE receipt (about a fifth of all operations; 40% as one signed transaction to the vault which calls transfer / transferFrom / approve on registered and unregistered contracts - sender of the tokens = the vault, an account with code, or a holder; 60% at keeper level: every call executed for real as its sender - holder, vault, another module account i.e. a blocked address, on the unregistered contract also the erc20 module address itself - and one receipt with all logs handed to Erc20Keeper.Hooks().PostTxProcessing; destinations module address / holder / vault / self / other module account / zero address; amounts up to half the running balance, exactly the rest, 0, 1, one too many, free; the same sender repeated; a quarter of the calls on another pair than the receipt's main pair), bank MsgSend, ToggleTokenConversion, bank send-enabled flips, MsgUpdateParams; amounts 1..balance, exactly balance, balance+-1, 0, free magnitudes; receivers self / third party / module accounts / contract account; projection after every operation (after every receipt as a whole): bank supply, totalSupply(), bank balance and balanceOf() of every party for every pair, flags, parameters, result class; non-trivial = at least one successful conversion or hook conversion; distinct by hash of (operations, result classes)"
 	ws := c03Worlds()
 	hdr := c03Header
 	for _, w := range ws {
@@ -441,7 +481,7 @@ func c03Run(e *Env) {
 		for wi, w := range ws {
 			for pair := range w.Pairs {
 				kase := c03Case{World: wi, Parties: w.c03PickParties(e, 1)}
-				script := w.c03BoundaryScript(pair, kase.Parties)
+				script := append(w.c03BoundaryScript(pair, kase.Parties), w.c03ReceiptScript(pair, kase.Parties)...)
 				i := 0
 				term, sig := w.c03Execute(e, &kase, len(script), func(cur c03Obs) c03Op { o := script[i](cur); i++; return o })
 				e.AddCase("check_case_c03", term, kase)
@@ -468,5 +508,23 @@ func c03Run(e *Env) {
 		c03Nontrivial(e, sig)
 		e.Stats.Count("stream:random-history")
 		e.Stats.Sample(kase)
+	}
+	d := e.Stats.Distribution
+	pct := func(a, b int) string {
+		if b == 0 {
+			return "n/a"
+		}
+		return fmt.Sprintf("%d/%d = %.0f%%", a, b, 100*float64(a)/float64(b))
+	}
+	rAll, rOK := d["receipt:all:ok"]+d["receipt:all:rejected"], d["receipt:all:ok"]
+	if rAll > 0 {
+		e.Stats.Notes = append(e.Stats.Notes, fmt.Sprintf(
+			"multi-log receipts: %s of all operations; executed (not reverted) %s; of the executed ones: two or more logs %s, two or more positive transfers to the module address of ONE contract %s, a transfer to the module address whose sender is an account with code %s, whose sender is a blocked address %s, logs of several registered contracts %s; converted something %s",
+			pct(rAll, e.Stats.Evaluations), pct(rOK, rAll), pct(d["receipt:two-or-more-logs:ok"], rOK),
+			pct(d["receipt:two-or-more-transfers-to-module-of-one-contract:ok"], rOK),
+			pct(d["receipt:transfer-to-module-by-account-with-code:ok"], rOK),
+			pct(d["receipt:transfer-to-module-by-blocked-address:ok"], rOK),
+			pct(d["receipt:several-registered-contracts:ok"], rOK),
+			pct(d["hook:converted-in-multi-log-receipt"], rOK)))
 	}
 }
